@@ -16,6 +16,10 @@ def generate(rnd, tier):
     n = 500 if tier == "quick" else 6000
     sid = SidCounter()
     cases = [gen_case(rnd, "tame", sid) for _ in range(n)] + [gen_case(rnd, "app", sid) for _ in range(n)]
+    for c in cases:
+        # an application that starts by pushing a screen and schedules others afterwards (before run() or later): scheduling puts a screen at the bottom even then
+        if rnd.random() < 0.15 and c["screens"]:
+            c["init"] = [["push", rnd.randrange(len(c["screens"])), rnd.choice([None, 1])]] + [a for a in c["init"]]
     return [with_cc(c) for c in cases]
 
 
